@@ -144,6 +144,12 @@ func payloads() []payload {
 		{"link", `S1E <a href="http://x/l?a=1&amp;b=2">S2E</a>`, 2, "", true, ""},
 		{"escaped-markup", "&lt;b&gt;S1E&lt;/b&gt;", 1, "<b>S1E</b>", false, ""},
 		{"numeric-lt", "S1E &#60;i&#62;S2E", 2, "<i>S2E", false, ""},
+		// escaped markup written INSIDE an inline element (a leaf element, an element next to others, two levels down): the inner
+		// text is character data like any other
+		{"escaped-inside-inline", "<b>&lt;i&gt;S1E&lt;/i&gt;</b> S2E", 2, "<i>S1E</i>", true, ""},
+		{"escaped-inside-inline-only", "<b>&lt;u&gt;S1E&lt;/u&gt;</b>", 1, "<u>S1E</u>", true, ""},
+		{"escaped-inside-nested-inline", "S1E <span><i>&lt;em&gt;S2E&lt;/em&gt; &amp;amp;lt;</i> x</span>", 2, "<em>S2E</em>", true, "&amp;amp;lt;"},
+		{"amp-entity-inside-inline", "<b>S1E &amp;copy; &amp;amp; S2E</b>", 2, "", true, "&amp;copy; &amp;amp;"},
 		{"hex-lt", "S1E &#x3c;u&#x3e;S2E", 2, "<u>S2E", false, ""},
 		{"amp-entity", "S1E &amp; S2E", 2, "", false, ""},
 		{"named-entities", "S1E &nbsp;&copy;&eacute; S2E", 2, "", false, ""},
